@@ -66,6 +66,19 @@ def json_values(max_size):
         yield from by_size[size]
 
 
+JSON_STRS = ["\u00e9", "\u30c4", "\U00010000", "\ud83d", "\udc00\ud800", "\u2028", "\x7f", "\x80", "a\x00b", "\ufeff", "\u043a\u043b\u044e\u0447", "\\u00e9", '"\u00e9"']
+JSON_ENCODINGS = (None, "utf-8", "utf-16", "ascii", "latin-1", "cp1252", "utf-8-sig", "utf-32")
+
+
+def json_text_values():
+    """JSON documents whose strings / keys leave ASCII (incl. lone surrogates, which json escapes): the
+    store's encoding parameter must not restrict which values round-trip."""
+    out = []
+    for s in JSON_STRS:
+        out += [s, [s], {s: s}, {"k": [s, "a" + s + "b"]}, {s: {s + "/" + s: None}}]
+    return out
+
+
 def pickle_extra():
     return [(), (1, "a"), ((1,), [2]), {1, 2}, frozenset({"a"}), b"", b"\x00\r\n", Pt(3), {"k": Pt((1, 2))}, 2 ** 70, 1j, {1: "int key", (1, 2): "tuple key"}, "\ud800" if False else "x"]
 
@@ -407,7 +420,12 @@ def run(tier):
     for enc in (None, "utf-8", "utf-16"):
         for pl, mounted in ((False, False), (True, False), (False, True)):
             shards.append(("json", enc, pl, mounted, jv))
-    pv = jv + pickle_extra()
+    jtv = json_text_values()
+    for enc in JSON_ENCODINGS:
+        shards.append(("json", enc, False, False, jtv))
+    shards.append(("json", "ascii", True, False, jtv))
+    shards.append(("json", "latin-1", False, True, jtv))
+    pv = jv + jtv + pickle_extra()
     for pl, mounted in ((False, False), (True, False), (False, True)):
         shards.append(("pickle", None, pl, mounted, pv))
     bins = [b""] + [bytes([a]) for a in range(256)] + [b"\r\n", b"\n\r", b"\x1a\x00", b"\xff\xfe", bytes(range(256)) * 256]
@@ -449,7 +467,7 @@ def run(tier):
         "distinct_nontrivial": len(distinct),
         "roundtrips": n, "operation_sequences": n2,
         "rule": ("write+read+get_modified_time of every enumerated value through the real store: TextFileStore x encodings {default, utf-8, utf-16, utf-8-sig, latin-1}: all strings of length <= 3 over "
-                 f"{SPECIAL!r}, every Unicode scalar value (quick: 0..0x7ff singly, all others in 1024-code-point blocks; thorough: each alone); JsonFileStore: every JSON value of size <= 3 (thorough 4) over the atom set; "
+                 f"{SPECIAL!r}, every Unicode scalar value (quick: 0..0x7ff singly, all others in 1024-code-point blocks; thorough: each alone); JsonFileStore: every JSON value of size <= 3 (thorough 4) over the atom set, plus documents whose strings / keys are non-ASCII, astral, lone surrogates or escape look-alikes x encodings (default, utf-8, utf-8-sig, utf-16, utf-32, ascii, latin-1, cp1252); "
                  "PickleFileStore: those plus tuples/sets/bytes/class instance/complex/big int; BinaryFileStore: all byte strings of length <= 1 (thorough 2) + 64 KiB; TouchFileStore; str and pathlib paths; each also through a MountedStore; "
                  "plus every operation sequence of length <= 4 over {write v1, write v2, read, get_modified_time}; distinct_nontrivial = distinct (store, value) pairs"),
         "samples": [{"store": "text", "encoding": "utf-8", "value": "a\\r\\u2028"}, {"store": "json", "value": repr(jv[40])}, {"store": "ops", "sequence": ["w1", "mtime", "w2", "read"]}],
